@@ -64,3 +64,32 @@ func bufferFunnel(c *Ctx) *ssa.Function {
 	}
 	return found
 }
+
+// constBuilt: v is a string assembled from constants only — a constant, or a φ / concatenation all of whose operands are
+// (an accumulator such as `rel := ""; if a { rel = add(rel, "nofollow") }` after the helper was inlined).
+func constBuilt(v ssa.Value) bool {
+	seen := map[ssa.Value]bool{}
+	var f func(v ssa.Value) bool
+	f = func(v ssa.Value) bool {
+		if seen[v] {
+			return true
+		}
+		seen[v] = true
+		switch x := v.(type) {
+		case *ssa.Const:
+			_, ok := constString(x)
+			return ok
+		case *ssa.Phi:
+			for _, e := range x.Edges {
+				if !f(e) {
+					return false
+				}
+			}
+			return true
+		case *ssa.BinOp:
+			return x.Op == token.ADD && f(x.X) && f(x.Y)
+		}
+		return false
+	}
+	return f(v)
+}
